@@ -912,7 +912,7 @@ var Prop = &harness.Prop{
 		for p := 0; p < 16; p++ {
 			u = append(u, tlsSuiteMatrixUnit(p, 16))
 		}
-		u = append(u, sniUnit(0x0301), sniUnit(0x0303))
+		u = append(u, sniUnit(0x0301), sniUnit(0x0303), keyPairUnit())
 		rdepth := 4
 		if full {
 			rdepth = 5
@@ -920,6 +920,7 @@ var Prop = &harness.Prop{
 		for _, capacity := range []int{1, 2} {
 			u = append(u, reconnectUnit(0x0303, capacity, rdepth), reconnectUnit(0x0301, capacity, rdepth-1))
 		}
+		u = append(u, serverChainUnit(true, 0), serverChainUnit(false, 0x0301), serverChainUnit(false, 0x0303))
 		for _, sp := range supplyPaths() {
 			u = append(u, certSupplyUnit(sp))
 		}
